@@ -67,6 +67,8 @@ func unignoreRules(ignoredRules *ignoredRules, rules []Rule) {
 
 func parseIgnoreComment(comment string) (string, []Rule) {
 	body := strings.TrimLeft(comment, "#@*/ ")
+	// a block comment also has a closing marker: /* falco-ignore */
+	body = strings.TrimSpace(strings.TrimSuffix(strings.TrimSpace(body), "*/"))
 	ignoreType, body, _ := strings.Cut(body, " ")
 
 	if supported, ok := supportedIgnoreTypes[ignoreType]; !ok || !supported {
